@@ -59,7 +59,7 @@ PTHREAD_WRAPS = ["pthread_mutex_init", "pthread_mutex_destroy", "pthread_mutex_l
                  "pthread_cond_wait", "pthread_cond_timedwait", "pthread_cond_signal", "pthread_cond_broadcast", "pthread_create", "pthread_join"]
 
 
-def build_pthread_level(wd, name, driver, srcs, extra=()):
+def build_pthread_level(wd, name, driver, srcs, extra=(), wraps=()):
     """A scheduler-driven driver built with the runtime's OWN pthread configuration: the deterministic scheduler sits under the
     pthread functions (bind/c/sched_pthread.c, linked with --wrap), so it does not depend on how the tree spells its thread macros."""
     import common
@@ -75,7 +75,7 @@ def build_pthread_level(wd, name, driver, srcs, extra=()):
         if rc != 0:
             raise common.MachineryError("cannot build %s (pthread level): %s" % (name, err[-2000:]))
         objs.append(ob)
-    rc, out, err = run(["gcc", "-fsanitize=address", *objs, "-Wl," + ",".join("--wrap=" + f for f in PTHREAD_WRAPS), "-o", exe, "-lpthread", "-lm"], timeout=300)
+    rc, out, err = run(["gcc", "-fsanitize=address", *objs, "-Wl," + ",".join("--wrap=" + f for f in list(PTHREAD_WRAPS) + list(wraps)), "-o", exe, "-lpthread", "-lm"], timeout=300)
     if rc != 0:
         raise common.MachineryError("cannot link %s (pthread level): %s" % (name, err[-2000:]))
     return exe
